@@ -399,6 +399,9 @@ class AbstractTextNode(NodeProtocol):
     def emit(self, current_addr: Address) -> bytes:
         return self.binary_text
 
+    def __str__(self) -> str:
+        return f"{self.__class__.__name__}({self.text!r})"
+
 
 class TextNode(AbstractTextNode):
     def __init__(self, text: str, resolver: Resolver, file_info: Token) -> None:
